@@ -323,10 +323,29 @@ ExecOne(st, a, evt, eng, proc) ==
                  [st0 EXCEPT !.ctx = [@ EXCEPT ![a.arg[1]] = a.arg[2]]]
             [] OTHER -> st0
 
-RECURSIVE ExecActs(_, _, _, _, _, _)
+\* kind "choose": arg = sequence of branches [guard, acts]; the first branch whose guard passes
+\* contributes its actions, which run (one nesting level deeper) before anything else
+RECURSIVE ExecActs(_, _, _, _, _, _), ChooseBranch(_, _, _, _, _, _, _)
+ChooseBranch(st, branches, i, evt, eng, proc, gv) ==
+  IF i > Len(branches) THEN st
+  ELSE LET r == GEval(branches[i].guard, st.config, gv)
+           st1 == [st EXCEPT !.out = @ \o r.log, !.err = r.err]
+       IN IF r.err # NoErr THEN st1
+          ELSE IF r.v THEN ExecActs(st1, branches[i].acts, 1, evt, eng, proc)
+          ELSE ChooseBranch(st1, branches, i + 1, evt, eng, proc, gv)
 ExecActs(st, acts, i, evt, eng, proc) ==
   IF i > Len(acts) \/ Failed(st) THEN st
-  ELSE ExecActs(ExecOne(st, acts[i], evt, eng, proc), acts, i + 1, evt, eng, proc)
+  ELSE LET a == acts[i] IN
+       IF a.kind = "choose" /\ eng # "pure" THEN
+          LET r == ChooseBranch(Log(st, L("ax", a.name, "", {})), a.arg, 1, evt, eng, proc, st.gv)
+          IN IF Failed(r)
+             \* anything a built-in raises (a missing guard of a branch, a missing nested action) is
+             \* contained by the list that holds the built-in: the rest of THAT list is skipped;
+             \* only the async engine reports it through on_action_error
+             THEN LET r1 == [r EXCEPT !.err = NoErr]
+                  IN IF eng = "async" THEN Log(r1, L("action_error", a.name, "", {})) ELSE r1
+             ELSE ExecActs(r, acts, i + 1, evt, eng, proc)
+       ELSE ExecActs(ExecOne(st, a, evt, eng, proc), acts, i + 1, evt, eng, proc)
 
 --------------------------------------------------------------------------
 (* Background tasks: only the bookkeeping visible in the log for now       *)
@@ -599,9 +618,10 @@ AsyncLoop(st, gv, fuel) ==
 AllTrue == [g \in D.guards |-> "T"]
 
 Fresh(hist0, ctx0) == [config |-> {}, hist |-> hist0, status |-> "uninitialized", ctx |-> ctx0,
-                       queue |-> <<>>, out |-> <<>>, err |-> NoErr, rd |-> 0, output |-> NONE]
+                       queue |-> <<>>, out |-> <<>>, err |-> NoErr, rd |-> 0, output |-> NONE, gv |-> <<>>]
 
-StartStep(st, gv, eng) ==
+StartStep(st0, gv, eng) ==
+  LET st == [st0 EXCEPT !.gv = gv] IN
   IF eng = "async" THEN
      LET s0 == Log([st EXCEPT !.status = "running"], L("interp_start", "", "", {}))
          s1 == EnterL(s0, <<D.root>>, InitEv, 1, "async", FALSE)
@@ -616,7 +636,8 @@ StartStep(st, gv, eng) ==
          s3 == Settle(s2, gv, 1, eng, FALSE)
      IN IF Failed(s3) THEN s3 ELSE Log(s3, L("on_transition", "start", "init", s3.config))
 
-SendStep(st, evtype, gv, eng) ==
+SendStep(st0, evtype, gv, eng) ==
+  LET st == [st0 EXCEPT !.gv = gv] IN
   IF eng = "async" THEN
      AsyncLoop(Enqueue(st, PlainEv(evtype), "async"), gv, D.fuel)
   ELSE
@@ -626,7 +647,7 @@ SendStep(st, evtype, gv, eng) ==
 
 \* send_events([e1, e2]): every event is queued first, then the queue is drained
 BatchStep(st0, evs, gv, eng) ==
-  LET st == Log(st0, L("batch", evs[1], evs[2], {}))     \* the harness marks the call
+  LET st == Log([st0 EXCEPT !.gv = gv], L("batch", evs[1], evs[2], {}))     \* the harness marks the call
   IN IF eng = "async" THEN
         LET RECURSIVE PutAll(_, _)
             PutAll(s, i) == IF i > Len(evs) THEN s
